@@ -15,3 +15,10 @@ Print Assumptions C08_instance_c08_retained_and_parent.
 Theorem C08_retained_for : PropsE2E.C08_retained_for.
 Proof. exact ProofsE2E.retained_for. Qed.
 Print Assumptions C08_retained_for.
+
+(* a retained update concurrent to a new subscription: with the orders of the store operations the source has now
+   (retain before lookup, register before read - tie T1) the subscription is sent the new value in EVERY interleaving *)
+From Proto Require RetainRace.
+Theorem C08_update_not_missed : Proto.RetainRace.C08_update_not_missed.
+Proof. exact Proto.RetainRace.update_not_missed. Qed.
+Print Assumptions C08_update_not_missed.
